@@ -274,6 +274,12 @@ func c05Gen(rng *rand.Rand, tier string) []core.Spec {
 						sp.Chunks = []B{B(prefix)}
 					}
 				}
+				if sp.Fault != 0 && rng.Intn(2) == 0 && k < len(stream) {
+					// transient fault: reported once, alone; afterwards the rest of the stream arrives
+					sp.Glued = false
+					sp.Resume = chunkStream(rng, stream[k:], nil)
+					sp.Note = "transient-fault"
+				}
 				switch rng.Intn(4) {
 				case 0:
 					sp.Ops = drainOps(len(msgs) + 2)
@@ -365,8 +371,25 @@ func c06Gen(rng *rand.Rand, tier string) []core.Spec {
 			frames = append(frames, f)
 			note = "huge-declared-length"
 		}
+		if i%10 == 5 {
+			// running sum of a fragmented message overflows int64 (or just does not): a non-empty
+			// first fragment, then a continuation header claiming close to 2^63 bytes
+			part := 1 + rng.Intn(L)
+			frames = append(frames, fillerFrame(rng, server, 1+rng.Intn(2), false, part))
+			if rng.Intn(3) == 0 {
+				frames = append(frames, fillerFrame(rng, server, 9+rng.Intn(2), true, rng.Intn(20)))
+			}
+			f := fillerFrame(rng, server, 0, rng.Intn(2) == 0, rng.Intn(40))
+			f.LenForm = 2
+			f.Decl = u64p(core.Pick(rng, []uint64{1<<63 - 1, 1<<63 - uint64(part), 1<<63 - uint64(part) - 1, 1<<63 - uint64(part) + 1, 1 << 62}))
+			frames = append(frames, f)
+			note = "running-sum-overflow"
+		}
 		stream, bounds := encodeAll(frames)
 		sp := &ReaderSpec{Prop: 6, Server: server, RBuf: core.Pick(rng, rbufChoices), Chunks: chunkStream(rng, stream, bounds), Fault: 0, Cmp: true, Drains: true, Note: note}
+		if i%10 == 5 && rng.Intn(2) == 0 {
+			L = 0
+		}
 		if i%10 == 0 && rng.Intn(3) == 0 {
 			L = 0 // no limit: the declared length alone must not drive allocation
 		}
